@@ -473,6 +473,46 @@ def rule_command_not_mutated(report, prog, rule='C16-R3'):
     report.canary('C16-R3 in-place canary', len(inplace_param_mutations(variant)) == 1 and not inplace_param_mutations(twin))
 
 
+def rule_no_write_retry(report, prog, rule='C16-R3'):
+    """Transient errors are absorbed once, in transceive() / send_cmd_recv_rsp(); a tag *error response* means the command was received
+    and answered.  No function of nfc.tag issues a state-changing command (write / update binary) again after its own handler caught a
+    tag command error: in the CFG the write is not reachable from the handler of the try that encloses it (a handler that leaves the
+    loop, raises or returns is fine) -- a second write after a lost response executes the command twice."""
+    from ..cfg import cfg_of
+    from ..q import cfg_node_for
+    n, bad = 0, []
+    for q, f in sorted(prog.functions.items()):
+        if not q.startswith('nfc.tag.') or q.startswith('nfc.tag.tt3.Type3TagEmulation'):
+            continue
+        for t in walk_no_nested(f.node):
+            if not isinstance(t, ast.Try):
+                continue
+            wr = [c for st in t.body for c in ast.walk(st) if isinstance(c, ast.Call) and
+                  ('write' in norm(c.func).split('.')[-1] or 'update_binary' in norm(c.func).split('.')[-1]) and not norm(c.func).startswith(('log.', 'self.log.'))]
+            hs = [h for h in t.handlers if h.type is None or 'CommandError' in norm(h.type) or norm(h.type) in ('Exception', 'BaseException')]
+            if not wr or not hs:
+                continue
+            n += 1
+            cfg = cfg_of(f)
+            wn = [cfg_node_for(cfg, enclosing_stmt(c)) for c in wr]
+            for h in hs:
+                hn = [cfg_node_for(cfg, st) for st in h.body]
+                reach = set()
+                for x in hn:
+                    if x is not None:
+                        reach |= cfg.reachable(x)
+                again = [w for w in wn if w is not None and w in reach]
+                if again:
+                    bad.append((f, h, again[0]))
+    for f, h, w in bad:
+        report.fail(rule, key(f.qname, 'a write command is not issued again after its handler caught a tag command error', norm(w.ast)[:60]), f.loc(h),
+                    '%s: after `except %s` the command `%s` can be sent again: a write whose answer was lost or refused is executed a second time'
+                    % (f.qname, norm(h.type) if h.type is not None else '', norm(w.ast)[:70]))
+    report.ok(rule, key('nfc.tag', 'no write command is re-issued from a tag command error handler'), None,
+              detail='%d try statements around write commands in nfc.tag, %d with a path from the handler back to the write' % (n, len(bad)))
+    report.floor(rule + ' try statements around write commands', n, 4)
+
+
 def rule_tt4_dump(report, prog, rule='C16-R7'):
     """Type 4 Tag dump(): folded against a file that answers every READ BINARY with 16 octets the dump ends by itself and never hands
     READ BINARY an offset its P1 P2 cannot carry (which would be a struct.error instead of a tag command error)."""
@@ -488,6 +528,7 @@ def run(report, prog, tier):
     rule_mapping(report, prog)
     rule_tt4_dump(report, prog)
     rule_command_not_mutated(report, prog)
+    rule_no_write_retry(report, prog)
     rule_escape(report, prog, res, tier)
     rule_retry(report, prog)
     rule_activate(report, prog)
